@@ -204,6 +204,28 @@ class PybindWrapper:
 
         return ret
 
+    @staticmethod
+    def _cpp_string_literal(text: str) -> str:
+        """
+        Escape `text` so that it can be put between double quotes as a C++
+        string literal which decodes to exactly the UTF-8 bytes of `text`.
+
+        Python's repr() is not suitable for this: it writes non-printable
+        characters as \\xNN (a single byte in C++, and greedy: \\x7fa is one
+        out-of-range escape). Non-printable characters are written as octal
+        escapes of their UTF-8 bytes (always 3 digits, so never ambiguous).
+        """
+        simple = {'\\': '\\\\', '"': '\\"', '\n': '\\n', '\r': '\\r', '\t': '\\t'}
+        out = []
+        for ch in text:
+            if ch in simple:
+                out.append(simple[ch])
+            elif ch.isprintable():
+                out.append(ch)
+            else:
+                out.extend('\\{:03o}'.format(b) for b in ch.encode("UTF-8"))
+        return ''.join(out)
+
     def _wrap_method(self,
                      method,
                      cpp_class,
@@ -279,7 +301,7 @@ class PybindWrapper:
                    # If extract_docstring errors or fails to find a docstring, it just prints a warning.
                    # The incantation repr(...)[1:-1].replace('"', r'\"') replaces newlines with \n 
                    # and " with \" so that the docstring can be put into a C++ string on a single line.
-                   docstring=', "' + repr(self.xml_parser.extract_docstring(self.xml_source, cpp_class, cpp_method, method.args.names()))[1:-1].replace('"', r'\"') + '"' 
+                   docstring=', "' + self._cpp_string_literal(self.xml_parser.extract_docstring(self.xml_source, cpp_class, cpp_method, method.args.names())) + '"' 
                        if self.xml_source != "" else "",
                ))
 
